@@ -8,6 +8,9 @@ from typing import Any, Dict, Iterable, List, Optional, Tuple
 from . import tlc
 
 
+KIND_COUNTS: Dict[str, int] = {}    # filled by validate() from <<"K", ...>> prints (how often each spec outcome occurred)
+
+
 def write_ndjson(path: str, records: Iterable[Any]) -> int:
     n = 0
     with open(path, "w") as f:
@@ -66,6 +69,9 @@ def validate(module: str, cfg: str, workdir: str, records: List[Any], expected_s
         for v in r.prints:
             tid = v[1] - 1 + a
             verdicts[tid] = (sorted(tlc.as_set(v[2])), sorted(tlc.as_set(v[3])))
+        for kv in tlc.extract_prints(r.output, "K"):        # optional coverage prints <<"K", t, set>>
+            for x in tlc.as_set(kv[2]):
+                KIND_COUNTS[x] = KIND_COUNTS.get(x, 0) + 1
         os.remove(path)
         if total is None:
             total = r
